@@ -393,6 +393,8 @@ pub fn main(scenarios: &[Scenario]) -> ! {
 fn warm_up(scenarios: &[&Scenario]) {
     for s in scenarios {
         for w in 0..3u64 {
+            // (a warm-up run that kills the process is reported like any other: its seed regenerates it)
+            journal(w, 0x5741_524d_5550 + w, s.name);
             let _ = execute(&s.run, Decider::generate(0x5741_524d_5550 + w), false);
         }
     }
